@@ -915,7 +915,7 @@ def replay_tables(case):
                 RTCMReader.parse(f, validate=v)
             except Exception:  # noqa
                 pass
-    if case.get('msm_awkward'):
+    if True:   # MSM messages with awkward masks (unmapped satellite slots, reserved signals) are part of the corpus
         from . import structs
         from pyrtcm.rtcmmessage import RTCMMessage
         for b in structs.MSM_BASES:
